@@ -21,6 +21,11 @@ pub struct KeySet<K> {
     key_phase: KeyPhase,
 
     key_derivation_timer: Timer,
+    /// The packet number of the packet which caused the most recent phase rotation
+    ///
+    /// Packets from the previous phase with a lower packet number are delayed packets and
+    /// must not be mistaken for another key update by the peer.
+    rotation_packet_number: Option<PacketNumber>,
 
     //= https://www.rfc-editor.org/rfc/rfc9001#section-6.6
     //# In addition to counting packets sent, endpoints MUST count the number
@@ -63,6 +68,7 @@ impl<K: OneRttKey> KeySet<K> {
         Self {
             key_phase: KeyPhase::Zero,
             key_derivation_timer: Default::default(),
+            rotation_packet_number: None,
             packet_decryption_failures: 0,
             aead_integrity_limit,
             generation: 0,
@@ -140,6 +146,20 @@ impl<K: OneRttKey> KeySet<K> {
             }
         }
 
+        //= https://www.rfc-editor.org/rfc/rfc9001#section-6.4
+        //# Packets with higher packet numbers MUST be protected with either the
+        //# same or newer packet protection keys than packets with lower packet
+        //# numbers.
+        // A packet from the previous phase that was sent before the packet which caused the
+        // rotation has merely been reordered; it is processed with the retained old key but
+        // must not switch the phase back.
+        let packet_number = packet.packet_number;
+        let is_delayed_packet = self.key_update_in_progress()
+            && phase_switch
+            && self
+                .rotation_packet_number
+                .is_some_and(|rotation| packet_number < rotation);
+
         let key = &mut self.crypto[phase_to_use.into()];
 
         let result = packet.decrypt(key.key_mut());
@@ -148,7 +168,7 @@ impl<K: OneRttKey> KeySet<K> {
 
         match result {
             Ok(packet) => {
-                let generation = if packet_phase != self.key_phase() {
+                let generation = if packet_phase != self.key_phase() && !is_delayed_packet {
                     //= https://www.rfc-editor.org/rfc/rfc9001#section-6.2
                     //# Sending keys MUST be updated before sending an
                     //# acknowledgement for the packet that was received with updated keys.
@@ -173,6 +193,7 @@ impl<K: OneRttKey> KeySet<K> {
                     //# retain old keys for some time after unprotecting a packet sent using
                     //# the new keys.
                     self.set_derivation_timer(pto);
+                    self.rotation_packet_number = Some(packet_number);
                     Some(self.generation)
                 } else {
                     None
